@@ -1133,6 +1133,81 @@ fn check_coincide(seed: u64) -> i32 {
     0
 }
 
+fn mk_ab(r: &mut Rng) -> (Box<dyn ArrivalBound>, String) {
+    match r.below(8) {
+        0 => { let t = 1 + r.below(12); (Box::new(Periodic::new(d(t))), format!("Periodic({})", t)) }
+        1 => { let t = 1 + r.below(12); let j = r.below(3 * t); (Box::new(Sporadic::new(d(t), d(j))), format!("Sporadic({},{})", t, j)) }
+        // (delta-min prefixes that end in a plateau are left out: number_arrivals and steps_iter disagree there, known finding KF5)
+        2 => { let a = r.below(4); let b = a + r.below(5); let c = b + 1 + r.below(6); (Box::new(Curve::new(vec![d(a), d(b), d(c)])), format!("Curve[{},{},{}]", a, b, c)) }
+        3 => { let a = 1 + r.below(4); let b = a + r.below(5); let c = b + 1 + r.below(6); (Box::new(arrival::ExtrapolatingCurve::new(Curve::new(vec![d(a), d(b), d(c)]))), format!("ExtrapolatingCurve[{},{},{}]", a, b, c)) }
+        4 => { let t = 1 + r.below(12); let j = r.below(20); (Box::new(Propagated::with_jitter(&Sporadic::new(d(t), d(0)), d(j))), format!("Propagated(Sporadic({},0),{})", t, j)) }
+        5 => { let t = 2 + r.below(9); let t2 = 2 + r.below(9); (Box::new(arrival::sum_of(Periodic::new(d(t)), Sporadic::new(d(t2), d(r.below(5))))), format!("sum_of(Periodic({}),Sporadic({},..))", t, t2)) }
+        6 => (Box::new(arrival::Never {}), "Never".to_string()),
+        _ => { let t = 2 + r.below(9); (Sporadic::new(d(t), d(1)).clone_with_jitter(d(r.below(7))), format!("Sporadic({},1).clone_with_jitter", t)) }
+    }
+}
+fn mk_cm(r: &mut Rng) -> (Box<dyn JobCostModel>, String) {
+    match r.below(4) {
+        0 => { let c = 1 + r.below(4); (Box::new(Scalar::new(s(c))), format!("Scalar({})", c)) }
+        1 => { let v: Vec<u64> = (0..1 + r.below(3)).map(|_| 1 + r.below(4)).collect(); (Box::new(wcet::Multiframe::new(v.iter().map(|x| s(*x)).collect())), format!("Multiframe{:?}", v)) }
+        2 => { let a = 1 + r.below(3); let b = a + r.below(3); let c = b + r.below(3); (Box::new(wcet::Curve::new(vec![s(a), s(b), s(c)])), format!("wcet::Curve[{},{},{}]", a, b, c)) }
+        _ => { let a = 1 + r.below(3); let b = a + 1 + r.below(2); let c = b + 1 + r.below(2); (Box::new(wcet::ExtrapolatingCurve::new(wcet::Curve::new(vec![s(a), s(b), s(c)]))), format!("wcet::ExtrapolatingCurve[{},{},{}]", a, b, c)) }
+    }
+}
+
+/// nested compositions of the basic models
+fn mk_ab_nested(r: &mut Rng, depth: u32) -> (Box<dyn ArrivalBound>, String) {
+    if depth == 0 || r.below(3) == 0 { return mk_ab(r); }
+    match r.below(4) {
+        0 => { let (a, da) = mk_ab_nested(r, depth - 1); let (b, db) = mk_ab_nested(r, depth - 1); (Box::new(arrival::sum_of(a, b)), format!("sum_of({}, {})", da, db)) }
+        1 => { let k = 1 + r.below(3); let mut v = vec![]; let mut ds = vec![]; for _ in 0..k { let (a, da) = mk_ab_nested(r, depth - 1); v.push(a); ds.push(da); } (Box::new(v), format!("vec{:?}", ds)) }
+        2 => { let (a, da) = mk_ab_nested(r, depth - 1); let j = r.below(9); (a.clone_with_jitter(d(j)), format!("{}.clone_with_jitter({})", da, j)) }
+        _ => { let (a, da) = mk_ab_nested(r, depth - 1); let j = r.below(9); let j2 = r.below(5); (a.clone_with_jitter(d(j)).clone_with_jitter(d(j2)), format!("{}.clone_with_jitter({}).clone_with_jitter({})", da, j, j2)) }
+    }
+}
+/// C20 / C10 / C11 / C14 / C16 (model queries, checked build): every query of every (nested) model returns without panicking;
+/// number_arrivals is 0 at 0 and non-decreasing; steps are >= 1 and strictly increasing; costs are monotone and
+/// cost_of_jobs(n) is the sum of the first n job costs; an RBF's job_cost_iter sums to service_needed
+fn check_queries(seed: u64) -> i32 {
+    let mut r = Rng(seed ^ 0x9e11e5);
+    for _ in 0..600 {
+        let (ab, da) = mk_ab_nested(&mut r, 2);
+        let (cm, dc) = mk_cm(&mut r);
+        let desc = format!("{{\"arrival\": \"{}\", \"cost\": \"{}\"}}", da, dc);
+        let res = guarded(|| -> Result<(), String> {
+            if ab.number_arrivals(d(0)) != 0 { return Err("number_arrivals(0) != 0".into()); }
+            let mut prev = 0usize;
+            for delta in 1..=120u64 { let n = ab.number_arrivals(d(delta)); if n < prev { return Err(format!("number_arrivals not monotone at {}", delta)); } prev = n; }
+            let steps: Vec<u64> = ab.steps_iter().take_while(|x| ud(*x) <= 120).take(200).map(ud).collect();
+            for w in steps.windows(2) { if w[0] >= w[1] { return Err(format!("steps not strictly increasing: {:?}", &steps[..steps.len().min(12)])); } }
+            if let Some(f) = steps.first() { if *f < 1 { return Err("first step < 1".into()); } }
+            let exp: Vec<u64> = (1..=120u64).filter(|x| ab.number_arrivals(d(*x - 1)) < ab.number_arrivals(d(*x))).collect();
+            if steps != exp { return Err(format!("steps {:?} != increases of number_arrivals {:?}", &steps[..steps.len().min(10)], &exp[..exp.len().min(10)])); }
+            let mut c_prev = 0u64;
+            for n in 0..=40usize { let c = us(cm.cost_of_jobs(n)); if c < c_prev { return Err(format!("cost_of_jobs not monotone at {}", n)); } c_prev = c;
+                let items: Vec<u64> = cm.job_cost_iter().take(n).map(us).collect();
+                if items.iter().sum::<u64>() != c { return Err(format!("cost_of_jobs({}) = {} != sum of job costs {:?}", n, c, items)); }
+                if let Some(m) = items.iter().min() { if us(cm.least_wcet(n)) > *m { return Err(format!("least_wcet({}) = {} > a job cost {}", n, us(cm.least_wcet(n)), m)); } } }
+            Ok(())
+        });
+        match res { Ok(Ok(())) => {}, Ok(Err(e)) => return fail("queries::model", desc, e, "the stated relation".into()), Err(e) => return fail("queries::model", desc, e, "no panic".into()) }
+        let rbf = RBF::new(ab, cm);
+        let res = guarded(|| -> Result<(), String> {
+            for delta in [0u64, 1, 2, 7, 30, 75] {
+                let sn = us(rbf.service_needed(d(delta)));
+                let jc: u64 = rbf.job_cost_iter(d(delta)).map(us).sum();
+                if jc != sn { return Err(format!("job_cost_iter({}) sums to {} != service_needed {}", delta, jc, sn)); }
+                let mut prevn = 0u64;
+                for n in 0..=6usize { let x = us(rbf.service_needed_by_n_jobs(d(delta), n)); if x < prevn || x > sn { return Err(format!("service_needed_by_n_jobs({}, {}) = {} outside [{}, {}]", delta, n, x, prevn, sn)); } prevn = x; }
+                let _ = rbf.least_wcet_in_interval(d(delta));
+            }
+            Ok(())
+        });
+        match res { Ok(Ok(())) => {}, Ok(Err(e)) => return fail("queries::rbf", desc, e, "the stated relation".into()), Err(e) => return fail("queries::rbf", desc, e, "no panic".into()) }
+    }
+    0
+}
+
 /// C20 (totality, checked build): random well-formed systems over ALL model kinds (sporadic, periodic, delta-min curves incl.
 /// plateaus, extrapolating curves, propagated and summed bounds, Never; scalar / multiframe / curve / extrapolating cost
 /// models); every analysis must return Ok or Err -- a panic (overflow check, debug assertion, index, unwrap) is a failure.
@@ -1140,27 +1215,6 @@ fn check_coincide(seed: u64) -> i32 {
 fn check_totality(seed: u64) -> i32 {
     use response_time_analysis::ros2;
     let mut r = Rng(seed ^ 0x707a1);
-    fn mk_ab(r: &mut Rng) -> (Box<dyn ArrivalBound>, String) {
-        match r.below(8) {
-            0 => { let t = 1 + r.below(12); (Box::new(Periodic::new(d(t))), format!("Periodic({})", t)) }
-            1 => { let t = 1 + r.below(12); let j = r.below(3 * t); (Box::new(Sporadic::new(d(t), d(j))), format!("Sporadic({},{})", t, j)) }
-            // (delta-min prefixes that end in a plateau are left out: number_arrivals and steps_iter disagree there, known finding KF5)
-            2 => { let a = r.below(4); let b = a + r.below(5); let c = b + 1 + r.below(6); (Box::new(Curve::new(vec![d(a), d(b), d(c)])), format!("Curve[{},{},{}]", a, b, c)) }
-            3 => { let a = 1 + r.below(4); let b = a + r.below(5); let c = b + 1 + r.below(6); (Box::new(arrival::ExtrapolatingCurve::new(Curve::new(vec![d(a), d(b), d(c)]))), format!("ExtrapolatingCurve[{},{},{}]", a, b, c)) }
-            4 => { let t = 1 + r.below(12); let j = r.below(20); (Box::new(Propagated::with_jitter(&Sporadic::new(d(t), d(0)), d(j))), format!("Propagated(Sporadic({},0),{})", t, j)) }
-            5 => { let t = 2 + r.below(9); let t2 = 2 + r.below(9); (Box::new(arrival::sum_of(Periodic::new(d(t)), Sporadic::new(d(t2), d(r.below(5))))), format!("sum_of(Periodic({}),Sporadic({},..))", t, t2)) }
-            6 => (Box::new(arrival::Never {}), "Never".to_string()),
-            _ => { let t = 2 + r.below(9); (Sporadic::new(d(t), d(1)).clone_with_jitter(d(r.below(7))), format!("Sporadic({},1).clone_with_jitter", t)) }
-        }
-    }
-    fn mk_cm(r: &mut Rng) -> (Box<dyn JobCostModel>, String) {
-        match r.below(4) {
-            0 => { let c = 1 + r.below(4); (Box::new(Scalar::new(s(c))), format!("Scalar({})", c)) }
-            1 => { let v: Vec<u64> = (0..1 + r.below(3)).map(|_| 1 + r.below(4)).collect(); (Box::new(wcet::Multiframe::new(v.iter().map(|x| s(*x)).collect())), format!("Multiframe{:?}", v)) }
-            2 => { let a = 1 + r.below(3); let b = a + r.below(3); let c = b + r.below(3); (Box::new(wcet::Curve::new(vec![s(a), s(b), s(c)])), format!("wcet::Curve[{},{},{}]", a, b, c)) }
-            _ => { let a = 1 + r.below(3); let b = a + 1 + r.below(2); let c = b + 1 + r.below(2); (Box::new(wcet::ExtrapolatingCurve::new(wcet::Curve::new(vec![s(a), s(b), s(c)]))), format!("wcet::ExtrapolatingCurve[{},{},{}]", a, b, c)) }
-        }
-    }
     for _ in 0..1500 {
         let n = 1 + r.below(3) as usize;
         let mut descs = vec![]; let mut rbfs: Vec<RBF<Box<dyn ArrivalBound>, Box<dyn JobCostModel>>> = vec![];
@@ -1228,7 +1282,7 @@ pub fn search(obligation: &str, seed: u64) -> i32 {
     let mut rc = 0;
     if let Some(cat) = o.strip_prefix("cat:") {
         rc = match cat { "supply" => run(check_supply), "fixed_point" => run(check_fixed_point), "arrival" => run(check_arrival), "steps" => run(check_steps),
-                         "wcet_demand" => run(check_wcet_demand), "analyses" => { let rc = run(check_analyses); if rc == 0 { run(check_analyses_tab) } else { rc } }, "ros2" => { let rc = run(check_ros2); if rc == 0 { run(check_ros2_tab) } else { rc } }, "ros2_all_scalar" => run(check_ros2_all_scalar), "ros2_bw_all" => run(check_ros2_bw_all), "ros2_mono" => run(check_ros2_mono), "coincide" => run(check_coincide), "totality" => run(check_totality), "ros2_all_multiframe" => run(check_ros2_all_multiframe), _ => 3 };
+                         "wcet_demand" => run(check_wcet_demand), "analyses" => { let rc = run(check_analyses); if rc == 0 { run(check_analyses_tab) } else { rc } }, "ros2" => { let rc = run(check_ros2); if rc == 0 { run(check_ros2_tab) } else { rc } }, "ros2_all_scalar" => run(check_ros2_all_scalar), "ros2_bw_all" => run(check_ros2_bw_all), "ros2_mono" => run(check_ros2_mono), "coincide" => run(check_coincide), "totality" => run(check_totality), "queries" => run(check_queries), "ros2_all_multiframe" => run(check_ros2_all_multiframe), _ => 3 };
     }
     else if o.contains("src/arrival/steps") || o.contains("src/arrival/dmin") || o.contains("arrival_curve_prefix") { rc = run(check_steps); }
     else if o.contains("src/supply/") { rc = run(check_supply); if rc == 0 { rc = run(check_fixed_point); } }
